@@ -19,6 +19,12 @@ pub assume_specification<T, A: core::alloc::Allocator>[ Vec::<T, A>::capacity ](
 pub assume_specification<T, A: core::alloc::Allocator>[ Vec::<T, A>::shrink_to_fit ](v: &mut Vec<T, A>)
     ensures final(v)@ == old(v)@;
 
+//@ assume __vec_u64_clone_from : rule R57: std semantics of `a.clone_from(&b)` for Vec<u64> (the receiver becomes a copy of the argument)
+#[verifier::external_body]
+pub fn __vec_u64_clone_from(a: &mut Vec<u64>, b: &Vec<u64>)
+    ensures final(a)@ == b@
+{ unimplemented!() }
+
 //@ assume __rpos_nz_len : rule R12a: std semantics of `s.iter().rposition(|&d| d != 0).map_or(0, |i| i + 1)`
 #[verifier::external_body]
 pub fn __rpos_nz_len(s: &[u64]) -> (r: usize)
